@@ -258,7 +258,17 @@ fn gen_host(i: usize, w: &mut Rng, twin_of: Option<&HostCfg>, twin_dim: u64) -> 
     };
     let nv = if link == Link::BareIp { 0 } else { *w.pick(&[0usize, 0, 1, 1, 2, 3]) };
     let vlans = (0..nv)
-        .map(|_| (*w.pick(&[0x8100u16, 0x88a8, 0x9100]), w.u16() & 0xfff))
+        .map(|_| {
+            let tpid = *w.pick(&[0x8100u16, 0x88a8, 0x9100]);
+            // priority-tagged frames (id 0) and the field maximum included
+            let vid = match w.below(6) {
+                0 => 0,
+                1 => 0xfff,
+                2 => 1,
+                _ => w.u16() & 0xfff,
+            };
+            (tpid, vid)
+        })
         .collect();
     let macsec = if link != Link::BareIp && nv < 3 && w.chance(1, 5) {
         Some((w.usize_range(0, nv), w.bool()))
@@ -426,7 +436,11 @@ impl World {
         // datagrams: unique pseudo-random payload per (seed, host, number)
         let twin_ids = self.cfg.twins;
         for h in 0..self.hosts.len() {
-            let mut next_id: u32 = self.wl.u32();
+            // identification field edges now and then
+            let mut next_id: u32 = match self.wl.below(6) {
+                0 => *self.wl.pick(&[0u32, 0xfffe, 0xffff, 0x1_0000, 0xffff_fffe, 0x7fff_ffff]),
+                _ => self.wl.u32(),
+            };
             for n in 0..self.cfg.datagrams_per_host {
                 let len = if self.cfg.confetti {
                     self.wl.usize_range(9_000, 40_000)
